@@ -466,18 +466,18 @@ fn apply_backspace_direct(input: &str) -> String {
 
     // Keep track of the size of each grapheme from the input
     // As many graphemes as input bytes in the common case
-    let mut grapheme_sizes: Vec<u8> = Vec::with_capacity(input.len());
+    let mut grapheme_sizes: Vec<usize> = Vec::with_capacity(input.len());
 
     for g in unicode_segmentation::UnicodeSegmentation::graphemes(input, true) {
         if g == "\u{0008}" {
             // backspace char
             if let Some(n) = grapheme_sizes.pop() {
                 // Remove the last grapheme
-                out.truncate(out.len() - n as usize);
+                out.truncate(out.len() - n);
             }
         } else {
             out.push_str(g);
-            grapheme_sizes.push(g.len() as u8);
+            grapheme_sizes.push(g.len());
         }
     }
 
